@@ -9,7 +9,7 @@ from cxxheaderparser.simple import parse_string
 TECHNIQUE = 'Lean 4: theorems on the two doc-comment scans (which comment tokens are returned/removed, for every buffer), non-documentation comments give no text, kernel-decided keep set; attachment per declaration kind decided by correspondence and a documented-program oracle (not a theorem)'
 LEAN_TARGET = "CxxModel.Props.C11"
 THEOREMS = ["Cxx.C11_doxScan_partition", "Cxx.C11_doxScan_comments_after_last_newline", "Cxx.C11_doxAfter_partition", "Cxx.C11_extract_none_without_doc", "Cxx.C11_extract_lines_append",
-            "Cxx.C11_keep_doxygen", "Cxx.keep_doxygen_eq", "Cxx.C11_get_doxygen_neutral", "Cxx.C11_doc_scans_preserve_tokens", "Cxx.getDoxygen_next", "Cxx.getDoxygen_ok"]
+            "Cxx.C11_keep_doxygen", "Cxx.keep_doxygen_eq", "Cxx.C11_get_doxygen_neutral", "Cxx.C11_doc_scans_preserve_tokens", "Cxx.getDoxygen_next", "Cxx.getDoxygen_ok", "Cxx.C11_variable_doc"]
 ANCHORS = ["lexer.py:LexerTokenStream", "lexer.py:TokenStream", "lexer.py:<module>", "parser.py:CxxParser.parse", "parser.py:CxxParser._parse_enumerator_list",
            "parser.py:CxxParser._parse_field", "parser.py:CxxParser._parse_declarations", "parser.py:CxxParser._parse_decl", "parser.py:CxxParser._parse_function",
            "parser.py:CxxParser._parse_namespace", "parser.py:CxxParser._parse_class_decl", "parser.py:CxxParser._parse_enum_decl", "parser.py:CxxParser._parse_using",
@@ -20,6 +20,7 @@ RULE = ("programs in which every declaration of every documentable kind (variabl
         "plain comment above or trailing, or nothing; dangling blocks before access specifiers and closing braces; expected "
         "attachment from the generator's knowledge; non-trivial = program with at least 3 documented declarations")
 CARRIED_BY = {
+    "attachment for one declaration kind end to end: through one iteration of the parse loop a variable declaration `T ptr-ops x ;` gets exactly the doc text found before it when there is one, otherwise what the trailing scan finds; it is the only callback of the iteration, and NO doc text is handed to the next declaration": "theorem C11_variable_doc (Theorems/TopLevel.lean, VarDecl.lean, FieldForm.lean)",
     "looking for documentation never changes what the parser reads: after get_doxygen() the next token and the stream state after it are exactly as before; both scans preserve the sequence of significant tokens": "theorems C11_get_doxygen_neutral, C11_doc_scans_preserve_tokens (over the regenerated rules; uses the lexer progress theorem)",
     "which comments a get_doxygen scan returns (those after the last NEWLINE token before the next significant token); nothing is pushed back": "theorems C11_doxScan_partition, C11_doxScan_comments_after_last_newline",
     "the trailing scan only removes comment tokens of the current line": "theorem C11_doxAfter_partition",
